@@ -222,6 +222,9 @@ func (h *harness) syncRound(rng *lib.RNG, round int) {
 					}
 				} else {
 					real.Add(1)
+					if sig, what := entryClassOracle(&v); sig != "" {
+						violate("sync-"+sig, what)
+					}
 					if len(keep) < 32 {
 						keep = append(keep, held{v: v, hash: deepHash(&v)})
 					}
@@ -252,7 +255,7 @@ func (h *harness) syncRound(rng *lib.RNG, round int) {
 		}
 	}
 	src.down.Store(false)
-	deadline := time.Now().Add(10 * time.Second)
+	deadline := time.Now().Add(120 * time.Second)
 	for time.Now().Before(deadline) {
 		if hgt, err := bc.Height(); err == nil && hgt == uint64(len(chain)-1) {
 			break
@@ -268,8 +271,8 @@ func (h *harness) syncRound(rng *lib.RNG, round int) {
 	cancel()
 	select {
 	case <-runDone:
-	case <-time.After(20 * time.Second):
-		violate("sync-stage-hangs", "Synchronizer.Run did not return within 20s of cancellation")
+	case <-time.After(300 * time.Second):
+		violate("sync-stage-hangs", "Synchronizer.Run did not return within 300s of cancellation")
 	}
 	synced, _ := bc.Height()
 	h.res.HitN("sync-preconfirmedchain-calls", int(calls.Load()))
